@@ -522,6 +522,18 @@ func (e *env) call(x *spec.Call) sval {
 		}
 		s, p := e.tr(x.Args[0]), e.tr(x.Args[1])
 		return sval{t: fmt.Sprintf("(hasPrefix %s %s)", s.t, p.t), sort: "Bool", gt: types.Typ[types.Bool]}
+	case "runeCount":
+		c.S.declareOnce("(declare-fun runeCount (Str) Int)")
+		c.S.declareOnce("(assert (forall ((s Str)) (! (and (<= 0 (runeCount s)) (<= (runeCount s) (len s))) :pattern ((runeCount s)))))")
+		v := e.tr(x.Args[0])
+		return sval{t: "(runeCount " + v.t + ")", sort: "Int", gt: types.Typ[types.Int]}
+	case "runeSlice":
+		c.S.declareOnce("(declare-fun runeSlice (Str Int Int) Str)")
+		a, b, d := e.tr(x.Args[0]), e.tr(x.Args[1]), e.tr(x.Args[2])
+		return sval{t: fmt.Sprintf("(runeSlice %s %s %s)", a.t, b.t, d.t), sort: "Str", gt: types.Typ[types.String]}
+	case "substr":
+		a, b, d := e.tr(x.Args[0]), e.tr(x.Args[1]), e.tr(x.Args[2])
+		return sval{t: fmt.Sprintf("(strsub %s %s %s)", a.t, b.t, d.t), sort: "Str", gt: types.Typ[types.String]}
 	case "after":
 		// after(s, p): what follows the prefix p in s
 		if !argOK(2) {
@@ -571,6 +583,20 @@ func (e *env) call(x *spec.Call) sval {
 			pre = e.preAlloc
 		}
 		return sval{t: fmt.Sprintf("(and (not (= %s 0)) (not (select %s %s)))", ref, pre, ref), sort: "Bool"}
+	case "entry":
+		// entry(p): the value of parameter p of the function under verification when it was entered
+		if id, ok := x.Args[0].(*spec.Ident); ok && c.fn != nil {
+			for _, prm := range c.fn.Params {
+				if prm.Name() == id.Name {
+					return sval{t: q("p." + prm.Name()), sort: c.S.SortOf(prm.Type()), gt: prm.Type()}
+				}
+			}
+		}
+		return e.fail("entry() needs the name of a parameter of the function under verification: %s", x)
+	case "samebase":
+		// samebase(a, b): two slices share their backing array
+		a, b := e.tr(x.Args[0]), e.tr(x.Args[1])
+		return sval{t: fmt.Sprintf("(= (sbase %s) (sbase %s))", a.t, b.t), sort: "Bool"}
 	case "allocated":
 		v := e.tr(x.Args[0])
 		ref := v.t
@@ -719,12 +745,26 @@ func (e *env) applyPure(pf *spec.PureFunc, args []sval) sval {
 			idx := len(c.S.decls)
 			c.S.decls = append(c.S.decls, "") // placeholder keeps ordering w.r.t. later declarations
 			body := ne.tr(pf.Body)
-			kw := "define-fun-rec"
-			if !isRecursive(pf) {
-				kw = "define-fun"
-			}
 			c.S.decls[idx] = ""
-			c.S.decls = append(c.S.decls, fmt.Sprintf("(%s %s (%s) %s %s)", kw, fname, strings.Join(ps, " "), rsort, body.t))
+			if isRecursive(pf) {
+				c.S.decls = append(c.S.decls, fmt.Sprintf("(define-fun-rec %s (%s) %s %s)", fname, strings.Join(ps, " "), rsort, body.t))
+			} else {
+				// opaque: a real function symbol with a defining axiom that is unfolded on demand (pattern = the application)
+				var an []string
+				for _, p := range pf.Params {
+					an = append(an, q("a."+p.Name))
+				}
+				app := "(" + fname + " " + strings.Join(an, " ") + ")"
+				if len(an) == 0 {
+					app = fname
+				}
+				c.S.decls = append(c.S.decls, fmt.Sprintf("(declare-fun %s (%s) %s)", fname, strings.Join(psorts, " "), rsort))
+				if len(an) == 0 {
+					c.S.decls = append(c.S.decls, fmt.Sprintf("(assert (= %s %s))", app, body.t))
+				} else {
+					c.S.decls = append(c.S.decls, fmt.Sprintf("(assert (forall (%s) (! (= %s %s) :pattern (%s))))", strings.Join(ps, " "), app, body.t, app))
+				}
+			}
 		}
 		return sval{t: app(fname), sort: rsort, gt: rgt}
 	}
